@@ -1,7 +1,8 @@
 #!/bin/sh
 # verify_seed.sh <seed-dir> : confirm a seeded change independently in a scratch copy of /repo:
 #  (1) demo passes on the unchanged tree, (2) patch applies and every module builds,
-#  (3) the existing suite passes with the patch (TestThrottling timing flakes are retried), (4) demo fails with the patch.
+#  (3) the existing suite passes with the patch (the timing-sensitive TestThrottling and TestFMap/Cancel, which also fail
+#      now and then on the unchanged tree, are retried up to 8 times; a test that fails every time counts as failing), (4) demo fails with the patch.
 # Prints one line: <dir> base-demo=<ok|FAIL> apply=<ok|FAIL> suite=<ok|FAIL> demo-with-patch=<fails|PASSES>
 d=$1
 tmp=$(mktemp -d /tmp/vseed.XXXXXX)
@@ -17,11 +18,11 @@ suite=ok
 if [ $ap = ok ]; then
   for m in duct hseq optics pipe pure trait; do
     okm=0
-    for try in 1 2 3 4; do
+    for try in 1 2 3 4 5 6 7 8; do
       out=$(cd "$tmp/repo/$m" && go build ./... 2>&1 && go test -vet=off -count=1 ./... 2>&1)
       if echo "$out" | grep -q '^FAIL\|^--- FAIL\|cannot\|undefined'; then
         # only TestThrottling failing? retry
-        if echo "$out" | grep '^--- FAIL' | grep -vq 'TestThrottling'; then echo "$out" | grep -E '^(--- FAIL|FAIL)' | head -5 > "$tmp/suite-$m.log"; break; fi
+        if echo "$out" | grep '^--- FAIL' | grep -vq 'TestThrottling\|TestFMap'; then echo "$out" | grep -E '^(--- FAIL|FAIL)' | head -5 > "$tmp/suite-$m.log"; break; fi
         if ! echo "$out" | grep -q '^--- FAIL'; then echo "$out" | tail -5 > "$tmp/suite-$m.log"; break; fi
       else okm=1; break; fi
     done
